@@ -62,10 +62,13 @@ def commentStates : List St := St.all.filter inComment
 /-- the annotation-sign state: a `'/'` has been read, `'/'` or `'*'` makes it an annotation opener -/
 def isSign (st : St) : Bool := stEq st .stateAnnotationSign2
 
-/-- KNOWN FINDING (see the report of C14_Trivia): states in which the end of input is swallowed while a
-lexeme is open, without a diagnostic.  `stateRegexBodyAfterSlash`: input `TYPE @a regex⏎/ab\` ends
-cleanly, the regular expression is dropped. -/
-def eofExceptions : List St := [.stateRegexBodyAfterSlash]
+/-- states in which the end of input may be swallowed while a lexeme is open, without a diagnostic: NONE.
+(The list exists so that a known defect can be carried explicitly through all statements as the disjunct
+`EofInException`.  It held `stateRegexBodyAfterSlash` while the Go scanner had the defect
+"`TYPE @a regex⏎/ab\` ends cleanly, the regular expression is dropped" — fixed in /repo by
+"report the end of input after a backslash inside a regex body"; with the unfixed table
+`silent_steps_are_trivia` and `eof_closes_or_rejects` fail for exactly that state.) -/
+def eofExceptions : List St := []
 
 def eofExc (st : St) : Bool := eofExceptions.any (stEq st)
 
